@@ -74,6 +74,9 @@ class GMRF(CallableModel):
                 scales = scales * heights_sorted[..., -1:]
             return scales
         elif self.weights is not None:
+            # from_json hands the weights over as a parameter
+            if isinstance(self.weights, AbstractParameter):
+                return 1.0 / self.weights.tensor
             return 1.0 / self.weights
         return None
 
